@@ -10,6 +10,7 @@ import (
 	"sync"
 	"syscall"
 	"time"
+	"unicode/utf16"
 
 	"github.com/Vedant9500/WTF/internal/database"
 	"github.com/Vedant9500/WTF/internal/recovery"
@@ -18,7 +19,7 @@ import (
 
 func init() { engines["loadfaults"] = engineLoadFaults }
 
-var c15Faults = []string{"valid", "valid-empty-list", "zero-bytes", "missing", "permission-denied", "is-a-directory", "dangling-symlink", "malformed-yaml", "wrong-shape", "binary-garbage",
+var c15Faults = []string{"valid", "valid-utf16", "valid-empty-list", "zero-bytes", "missing", "permission-denied", "is-a-directory", "dangling-symlink", "malformed-yaml", "wrong-shape", "binary-garbage",
 	"symlink-loop", "unsearchable-parent"}
 
 func c15Make(path, fault string, cmds []vlib.Cmd) {
@@ -28,6 +29,16 @@ func c15Make(path, fault string, cmds []vlib.Cmd) {
 	switch fault {
 	case "valid":
 		vlib.WriteYAML(path, cmds)
+	case "valid-utf16": // the same document as a Windows editor saves it when told "Unicode": UTF-16 with a byte-order mark
+		tmp := path + ".utf8"
+		vlib.WriteYAML(tmp, cmds)
+		b, _ := os.ReadFile(tmp)
+		os.Remove(tmp)
+		out := []byte{0xff, 0xfe}
+		for _, u := range utf16.Encode([]rune(string(b))) {
+			out = append(out, byte(u), byte(u>>8))
+		}
+		os.WriteFile(path, out, 0o644)
 	case "valid-empty-list":
 		os.WriteFile(path, []byte("[]\n"), 0o644)
 	case "zero-bytes":
@@ -57,10 +68,12 @@ func c15Make(path, fault string, cmds []vlib.Cmd) {
 	}
 }
 
-func c15Loads(f string) bool { return f == "valid" || f == "valid-empty-list" || f == "zero-bytes" }
+func c15Loads(f string) bool {
+	return f == "valid" || f == "valid-utf16" || f == "valid-empty-list" || f == "zero-bytes"
+}
 
 func c15Entries(f string, cmds []vlib.Cmd) []vlib.Cmd {
-	if f == "valid" {
+	if f == "valid" || f == "valid-utf16" {
 		return cmds
 	}
 	return nil
@@ -355,6 +368,87 @@ func engineLoadFaults(ctx *Ctx) {
 		ctx.R.Extra["ran_unprivileged_shards"] = 1
 	}
 	c15SizesAndSpellings(ctx, r, dir, &caseNo)
+	c15FallbackIsolation(ctx, r, dir, &caseNo)
+}
+
+// c15FallbackIsolation: the database a load returns belongs to the caller. Whatever the caller does with it - replace its
+// commands through the caching wrapper, edit or append entries, empty it - a later load that falls back gets the pristine
+// non-empty built-in database again.
+func c15FallbackIsolation(ctx *Ctx, r *rand.Rand, dir string, caseNo *int) {
+	cfg := recovery.RetryConfig{MaxAttempts: 1, BaseDelay: time.Microsecond, MaxDelay: time.Microsecond, BackoffFactor: 1}
+	missing := filepath.Join(dir, "nowhere", "commands.yml")
+	load := func() *database.Database {
+		db, err := recovery.NewDatabaseRecovery(cfg).LoadDatabaseWithFallback(missing, missing+".personal")
+		if err != nil {
+			return nil
+		}
+		return db
+	}
+	type ent struct{ c, d string }
+	snap := func(db *database.Database) []ent {
+		var out []ent
+		for _, c := range db.Commands {
+			out = append(out, ent{c.Command, c.Description})
+		}
+		return out
+	}
+	muts := []string{"UpdateDatabase(nil)", "UpdateDatabase(other list)", "edit an entry in place", "append an entry", "Commands = nil", "truncate to one entry", "search only"}
+	for mi, mut := range muts {
+		*caseNo++
+		if *caseNo%ctx.NShards != ctx.Shard {
+			continue
+		}
+		cs := map[string]interface{}{"class": "fallback-after-the-caller-changed-an-earlier-result", "change": mut}
+		ctx.R.Begin(cs)
+		ctx.R.Eval(1)
+		ctx.R.Guard("C15", "LoadDatabaseWithFallback", cs, func() {
+			first := load()
+			if first == nil || len(first.Commands) == 0 {
+				ctx.R.Violate(vlib.Violation{Property: "C15", Clause: "empty-fallback", Path: "LoadDatabaseWithFallback", Detail: "the fallback database is empty or missing", Witness: cs})
+				return
+			}
+			pristine := snap(first)
+			switch mi {
+			case 0:
+				database.NewCachedDatabase(first).UpdateDatabase(nil)
+			case 1:
+				database.NewCachedDatabase(first).UpdateDatabase(vlib.MustLoad(vlib.GenCommands(r, vlib.DBSpec{N: 3})).Commands)
+			case 2:
+				first.Commands[0].Command, first.Commands[0].Description = "edited by the caller", "x"
+			case 3:
+				first.Commands = append(first.Commands, database.Command{Command: "appended by the caller", Description: "x"})
+			case 4:
+				first.Commands = nil
+			case 5:
+				first.Commands = first.Commands[:1]
+			default:
+				first.SearchUniversal("list files", database.SearchOptions{Limit: 3, UseNLP: true, UseFuzzy: true})
+			}
+			second := load()
+			ctx.R.Path("fallback-isolation-cases", 1)
+			ctx.R.Nontriv("fallback-isolation", mut)
+			if second == nil || len(second.Commands) == 0 {
+				ctx.R.Violate(vlib.Violation{Property: "C15", Clause: "empty-fallback", Path: "LoadDatabaseWithFallback/second-load",
+					Detail: fmt.Sprintf("after the caller of an earlier load did %q to the database it got, the next load that falls back returns an empty database", mut), Witness: cs})
+				return
+			}
+			got := snap(second)
+			same := len(got) == len(pristine)
+			for i := 0; same && i < len(got); i++ {
+				same = got[i] == pristine[i]
+			}
+			if !same {
+				ctx.R.Violate(vlib.Violation{Property: "C15", Clause: "fallback-not-built-in", Path: "LoadDatabaseWithFallback/second-load",
+					Detail:  fmt.Sprintf("after the caller of an earlier load did %q to the database it got, the next fallback has %d entries (first %s) instead of the %d built-in ones", mut, len(got), vlib.Q(got[0].c), len(pristine)),
+					Witness: cs})
+				return
+			}
+			// and it is searchable
+			for _, is := range vlib.CheckInvariants(second.Commands, 5, second.SearchUniversal("list files", database.SearchOptions{Limit: 5, AllPlatforms: true})) {
+				ctx.R.Violate(vlib.Violation{Property: "C15", Clause: "unsearchable:" + is.Clause, Path: "LoadDatabaseWithFallback/second-load", Detail: is.Detail, Witness: cs})
+			}
+		})
+	}
 }
 
 // c15SizesAndSpellings: loadable files must give the real database whatever their size (around 1, 4, 8, 16 MiB and more) and
